@@ -56,6 +56,8 @@ def c01(tier):
     c.add_tlc(r2, "the membership accelerator spec/RefDfa.tla equals the RFC regexes (complete product)")
     for model, cfg in cfgs("mc/MC_Lex", tier, [""]):
         mc_replay(c, model, cfg, "every string (garbage included) of bounded length over a boundary alphabet, all 20 types")
+    drive_parse_and_validate(c, tier, "random long references, near misses, IPv6/IPv4 shapes and ill-formed UTF-8 byte strings: "
+                                      "verdict (and components) of the real parsers judged by TLC")
     return c.finish(
         rule="one case per transition of the product automaton (low and high symbol of each cell); "
              "non-trivial = distinct (type, word) pairs",
@@ -93,6 +95,7 @@ def c02(tier):
     c = new_check("C02", tier)
     for model, cfg in cfgs("mc/MC_Parts", tier, ["", "iri"]):
         mc_replay(c, model, cfg, "every valid reference within the bound, with its RFC decomposition")
+    drive_parse_and_validate(c, tier, "random long multi-byte references: components reported by the real accessors judged by TLC")
     return c.finish(rule="all valid (I)RI-references of bounded length over a delimiter-rich alphabet, enumerated by "
                          "walking the derivative automaton; each distinct text is one case",
                     assumptions=TRUST)
@@ -201,6 +204,14 @@ def drive_and_validate(c, tier, ops=None):
     n, bad, tr = vlib.run_trace(ev, name="%s-edit-%s" % (c.pid, tier), select=sel)
     c.add_trace(n, bad, tr, "random edit histories (long texts, multi-byte, 30-40 calls each) recorded from the real "
                             "buffers; every call judged by TLC from the implementation's own previous text", charge=charge_edit)
+    c.exhaustive = False
+
+
+def drive_parse_and_validate(c, tier, label):
+    n = 6000 if tier == "quick" else 150000
+    ev = vlib.run_drive_parse("%s-%s" % (c.pid, tier), n)
+    k, bad, tr = vlib.run_trace(ev, name="%s-parse-%s" % (c.pid, tier))
+    c.add_trace(k, bad, tr, label)
     c.exhaustive = False
 
 
